@@ -1057,7 +1057,7 @@ class Desugar(ast.NodeTransformer):
                         ast.copy_location(x, node)
                 ast.fix_missing_locations(new)
                 self.count["leaf-helper"] = self.count.get("leaf-helper", 0) + 1
-                return new
+                return self.visit(new)          # constants that landed in f-string fields are merged into the template
         if isinstance(node.func, ast.Name) and node.func.id in ("isinstance", "issubclass") and len(node.args) == 2 and not node.keywords:
             t = self._class_tuple(node.args[1])
             if t is not None:
